@@ -2856,6 +2856,9 @@ class Order:
         if descending is None:
             descending = False
 
+        # markers are only allowed at the top of an ordering expression, not below a function
+        wrap_literals(expr)
+
         return Order(expr, descending, nulls_last)
 
     def ast_repr(self, depth: int = -1):
